@@ -290,7 +290,7 @@ def run_case(E, case):
     except (Unsupported, OutsideModel):
         raise
     except Exception as e:      # noqa: BLE001 - the code under test raised on a valid state
-        res_, m = solve_exists(inp.pre, True)
+        res_, m = solve_exists(list(inp.pre) + list(getattr(e, "gb_pc", [])), True)
         return {"verdict": "sat", "solver_s": 0.0, "symex_s": time.time() - t0, "n_queries": 1, "obligations": 0, "failed_obligations": [],
                 "witnesses": {}, "encoded": sorted(E.encoded),
                 "candidates": [{"signature": f"{PROP}:raises:{type(e).__name__}:{sig_tail if sig_tail != case['kind'] else case['kind'] + ':' + str(case.get('rep'))}",
